@@ -17,8 +17,11 @@ import (
 //     TRANSLATED from the Go expression into a Gallina boolean function over named atoms
 //     (Gen/GcConds.v); Model/C25.v is written against these functions and Proof/C25.v proves the
 //     facts about them that the safety theorem needs, by computation over the booleans;
-//   - the statement skeleton of targetsToRemove (conditions replaced by holes, log calls dropped)
-//     and the complete bodies of addTarget, publicDependencies, gcSibling, isIncluded and
+//   - the condition of publicDependencies that decides whether a dependency is a hidden sub-target
+//     of the same rule (and is looked through) is translated too, as a function over an abstract
+//     label type with `eqb` and `parent` (same_rule_cond);
+//   - the statement skeleton of targetsToRemove and of publicDependencies (conditions replaced by
+//     holes, log calls dropped) and the complete bodies of addTarget, gcSibling, isIncluded and
 //     anyInclude are pinned to the text the model was written from.
 //
 // Anything else fails closed.
@@ -92,6 +95,39 @@ func gccBool(what string, e ast.Expr, atoms map[string]string) string {
 	return ""
 }
 
+// gccLabelCond translates a boolean expression whose atoms are equalities between label-valued
+// expressions (Go source text -> Gallina term) into a Gallina term over an abstract label type with
+// `eqb` and `parent`.  Only ==, !=, !, &&, || and parentheses are understood.
+func gccLabelCond(what string, e ast.Expr, labels map[string]string) string {
+	switch x := e.(type) {
+	case *ast.ParenExpr:
+		return gccLabelCond(what, x.X, labels)
+	case *ast.UnaryExpr:
+		if x.Op == token.NOT {
+			return "(negb " + gccLabelCond(what, x.X, labels) + ")"
+		}
+	case *ast.BinaryExpr:
+		switch x.Op {
+		case token.LAND:
+			return "(" + gccLabelCond(what, x.X, labels) + " && " + gccLabelCond(what, x.Y, labels) + ")"
+		case token.LOR:
+			return "(" + gccLabelCond(what, x.X, labels) + " || " + gccLabelCond(what, x.Y, labels) + ")"
+		case token.EQL, token.NEQ:
+			a, okA := labels[types.ExprString(x.X)]
+			b, okB := labels[types.ExprString(x.Y)]
+			if okA && okB {
+				t := "(eqb " + a + " " + b + ")"
+				if x.Op == token.NEQ {
+					t = "(negb " + t + ")"
+				}
+				return t
+			}
+		}
+	}
+	failShape("%s: the sub-expression `%s` is not a comparison of labels the C25 model knows (%v)", what, types.ExprString(e), gccKeys(labels))
+	return ""
+}
+
 func gccKeys(m map[string]string) []string {
 	out := []string{}
 	for k := range m {
@@ -161,7 +197,6 @@ func init() {
 			term := gccBool(c.name, s.Cond, c.atoms)
 			fmt.Fprintf(&out, "(* %s:  %s *)\nDefinition %s (%s : bool) : bool := %s.\n", c.doc, types.ExprString(s.Cond), c.name, strings.Join(c.params, " "), term)
 		}
-		out.WriteString("End GcConds.\n")
 		for i, s := range ifs {
 			s.Cond = ast.NewIdent(fmt.Sprintf("C%d", i))
 		}
@@ -227,11 +262,34 @@ func init() {
 			for _, dep := range target.DeclaredDependencies() { addTarget(graph, m, graph.Target(dep)) }
 			for _, dep := range target.Dependencies() { addTarget(graph, m, dep) }
 			if target.Subrepo != nil && target.Subrepo.Target != nil { addTarget(graph, m, target.Subrepo.Target) } }`)
+		// publicDependencies: the condition "this dependency is a hidden sub-target of my own rule, look
+		// through it" is translated (over an abstract label type: the model instantiates eqb and parent
+		// with its BuildLabel == and BuildLabel.Parent); everything around it is pinned
+		{
+			var pifs []*ast.IfStmt
+			ast.Inspect(findFunc(f2, "", "publicDependencies").Body, func(x ast.Node) bool {
+				if s, ok := x.(*ast.IfStmt); ok {
+					pifs = append(pifs, s)
+				}
+				return true
+			})
+			if len(pifs) != 3 {
+				failShape("publicDependencies has %d if statements, the C25 model was written from 3", len(pifs))
+			}
+			term := gccLabelCond("same_rule_cond", pifs[1].Cond, map[string]string{
+				"depTarget.Label.Parent()": "(parent dep)", "target.Label.Parent()": "(parent target)",
+				"depTarget.Label": "dep", "target.Label": "target"})
+			fmt.Fprintf(&out, "(* publicDependencies looks through this dependency (a hidden sub-target of the same rule):  %s *)\n"+
+				"Definition same_rule_cond {L : Type} (eqb : L -> L -> bool) (parent : L -> L) (dep target : L) : bool := %s.\n",
+				types.ExprString(pifs[1].Cond), term)
+			pifs[1].Cond = ast.NewIdent("SAME_RULE")
+		}
+		out.WriteString("End GcConds.\n")
 		pin("publicDependencies", `{
 			ret := []*core.BuildTarget{}
 			for _, dep := range target.DeclaredDependencies() {
 				if depTarget := graph.Target(dep); depTarget != nil {
-					if depTarget.Label.Parent() == target.Label.Parent() {
+					if SAME_RULE {
 						ret = append(ret, publicDependencies(graph, depTarget)...)
 					} else { ret = append(ret, depTarget) } } }
 			if target.Subrepo != nil && target.Subrepo.Target != nil { ret = append(ret, target.Subrepo.Target) }
